@@ -64,7 +64,33 @@ func genTransfer(rt *rapid.T, o vfGenOpts, maxWrites int, maxChunks int, faultIn
 		}
 		sc.Acts = append(sc.Acts, a)
 	}
+	// a third of the scenarios make some of their streams unordered (still reliable)
+	if rapid.IntRange(0, 2).Draw(rt, "unordered") == 0 {
+		seen := map[[2]int]bool{}
+		var cfg []vfAct
+		for _, a := range sc.Acts {
+			k := [2]int{a.Side, a.SID}
+			if seen[k] {
+				continue
+			}
+			seen[k] = true
+			if rapid.Bool().Draw(rt, "unord") {
+				cfg = append(cfg, vfAct{AtMs: 0, Side: a.Side, Kind: "setrel", SID: a.SID, Unord: true})
+			}
+		}
+		sc.Acts = append(cfg, sc.Acts...)
+	}
 	sort.SliceStable(sc.Acts, func(i, j int) bool { return sc.Acts[i].AtMs < sc.Acts[j].AtMs })
+	// graceful shutdown by one side after the last write (everything accepted must still arrive)
+	if o.trailingShutdown && rapid.IntRange(0, 3).Draw(rt, "shutdown") == 0 {
+		last := 0
+		for _, a := range sc.Acts {
+			if a.AtMs > last {
+				last = a.AtMs
+			}
+		}
+		sc.Acts = append(sc.Acts, vfAct{AtMs: last + rapid.SampledFrom([]int{0, 1, 50, 400}).Draw(rt, "shutgap"), Side: rapid.IntRange(0, 1).Draw(rt, "shutside"), Kind: "shutdown"})
+	}
 	if faultIntensity > 0 {
 		k := rapid.SampledFrom([]int{0, 20, 60, 150}).Draw(rt, "faultspan")
 		sc.Faults.Pos[0] = genPosFaults(rt, "fa", k, 3, faultIntensity)
@@ -98,7 +124,7 @@ func runC01(t *testing.T, sc vfE1, verbose bool) vfCase {
 				}
 			}
 			for _, k := range vfSortedKeys(ws) {
-				if m := vfCheckExact(k, ws[k], rs[k]); m != "" {
+				if m := vfCheckDelivery(&sc, k, ws[k], rs[k]); m != "" {
 					sig := "delivery-mismatch"
 					if len(rs[k]) < len(ws[k]) {
 						sig = "not-delivered"
@@ -177,7 +203,7 @@ func genFlood(rt *rapid.T) vfFlood {
 func TestVF_C01(t *testing.T) {
 	vfExplore(t, "C01", "transfer", vfN(2400, 40000),
 		func(rt *rapid.T) vfE1 {
-			return genTransfer(rt, vfGenOpts{smallMTU: true}, 25, 1500, rapid.SampledFrom([]int{0, 10, 25, 40}).Draw(rt, "intensity"))
+			return genTransfer(rt, vfGenOpts{smallMTU: true, trailingShutdown: true}, 25, 1500, rapid.SampledFrom([]int{0, 10, 25, 40}).Draw(rt, "intensity"))
 		},
 		func(sc vfE1) vfCase { return runC01(t, sc, vfEnv.Replay != "") })
 	vfExplore(t, "C01", "wrapflood", vfN(64, 800), genFlood,
